@@ -163,6 +163,29 @@ partial def loop (h : IO.FS.Stream) (c : Case) (st : Stats) (lineNo : Nat) : IO 
           | some _ => fail "PROPFAIL" s!"what=intersect impl=[{showConj ic}]"; st := { st with propfails := st.propfails + 1 }
           | none => pure ()
       loop h c st (lineNo+1)
+  | ["pairop", i, j, opeq, opcmp] =>
+    -- `operator==` / `operator<=>` of Conjunction (keys of `std::map<Conjunction, …>` caches): "equal" is a conclusion of equality
+    -- and must hold for every valuation; both operators must agree
+    let ii := i.toNat!; let jj := j.toNat!
+    let mut st := { st with ops := st.ops + 1 }
+    let e := kv opeq "opeq" == "1"; let cmp := kv opcmp "opcmp" == "1"
+    if e != cmp then
+      fail "DIFF" s!"what=operators-disagree pair={ii},{jj} opeq={b2s e} opcmp_equal={b2s cmp}"
+      st := { st with diffs := st.diffs + 1 }
+    if e || cmp then
+      let ri := c.roots.getD ii none; let rj := c.roots.getD jj none
+      let ia := c.impl.getD ii ⟨true, false, []⟩; let ib := c.impl.getD jj ⟨true, false, []⟩
+      let leaves := leavesOf c.g
+      let (vals, _) := valuationsC c.cmps leaves lineNo
+      st := { st with positives := st.positives + 1 }
+      if !ia.undef && !ib.undef then
+        match vals.find? (fun ρ => evalPort c.g ρ ri != evalPort c.g ρ rj) with
+        | some ρ =>
+          let w := " ".intercalate (leaves.map fun l => s!"{l}={b2s (ρ l)}")
+          fail "PROPFAIL" s!"what=operator== roots={ri},{rj} values={b2s (evalPort c.g ρ ri)},{b2s (evalPort c.g ρ rj)} valuation=[{w}]"
+          st := { st with propfails := st.propfails + 1 }
+        | none => pure ()
+    loop h c st (lineNo+1)
   | ["pair", i, j, eq, neg, sub, cbt, cbtc] =>
     let i := i.toNat!; let j := j.toNat!
     let a := c.model.getD i {}; let b := c.model.getD j {}
